@@ -39,7 +39,7 @@ ATTRS = {"units": "m", "hist": [1, {"k": 2}]}
 
 
 def budget(tier):
-    return {"quick": dict(examples=250, shards=1), "thorough": dict(examples=3000, shards=16)}[tier]
+    return {"quick": dict(examples=400, shards=1), "thorough": dict(examples=3000, shards=16)}[tier]
 
 
 @st.composite
